@@ -141,7 +141,19 @@ def case_small(ctx, p):
         back = f(fw, *o, flipdir="inverse")
         ok = back.shape == img.shape and np.array_equal(back, img)
         mon.check("exhaustive:flip then inverse is identity", ok, observed=None if ok else back, expected=None if ok else img, detail=fname)
+    # histories: an odd or even number of further inverse-mode calls (of either image function) before the forward
+    # transform that the pixel map is compared with
+    for extra in range((nx + 2 * ny + VALID.index(o)) % 3):
+        (D.image_flipping if extra else D.trans_orientation)(img, *o, flipdir="inverse")
     timg = D.trans_orientation(img, *o)
+    ref = keep.T if abs(o[0]) == 1 else keep
+    if o[0] == -1 or o[1] == -1:
+        ref = np.fliplr(ref)
+    if o[3] == -1 or o[2] == -1:
+        ref = np.flipud(ref)
+    okf = timg.shape == ref.shape and bool(np.array_equal(timg, ref))
+    # the property ties trans_orientation to xy_to_detyz, not to the docstring's list of flips: observed only
+    mon.config("trans_orientation forward %s the flips listed in its docstring" % ("equals" if okf else "differs from"))
     same = bool(np.array_equal(img, keep))
     mon.check("pure:image functions leave the input image as it was", same, observed=None if same else "input modified", detail={"o": o, "shape": [nx, ny]})
     bad = []
